@@ -131,7 +131,9 @@ func validateClusterAndConstructClusterUpdate(cluster *v3clusterpb.Cluster, serv
 		// Minimum defaults to 1024 entries, and limited to 8M entries Maximum
 		// defaults to 8M entries, and limited to 8M entries
 		var minSize, maxSize uint64 = defaultRingHashMinSize, defaultRingHashMaxSize
-		if min := rhc.GetMinimumRingSize(); min != nil {
+		// An explicit 0 means "unset" to the ring_hash config parser (it falls back
+		// to the default), so it must be validated as the default here as well.
+		if min := rhc.GetMinimumRingSize(); min != nil && min.GetValue() != 0 {
 			minSize = min.GetValue()
 		}
 		if max := rhc.GetMaximumRingSize(); max != nil {
